@@ -33,7 +33,7 @@ func openFDs() int {
 	return len(es)
 }
 
-func runLife(t *testing.T, variant string, op, k, class int) (status int, kept, resNil bool, handles sxList, counts [5]int, fdLeak int) {
+func runLife(t *testing.T, variant string, op, k, class int) (status int, kept, resNil bool, handles sxList, counts [5]int, fdLeak int, fired int) {
 	// sockets the run opens itself (the UDP socket that yields the local address and holds the source port, the TCP
 	// port-reservation listener) are real ones: with the collector off - a finalizer would close a forgotten socket and
 	// hide it - the number of open descriptors after the run must be what it was before
@@ -56,6 +56,26 @@ func runLife(t *testing.T, variant string, op, k, class int) (status int, kept, 
 			case 2:
 				f.faults.setZero(lifeOps[op], k)
 			}
+		}
+		// the first router answers: a run that fails later has already recorded a hop (a failure must still be an error
+		// without a result, not a partial path)
+		f.onNew = func(h *wireHandle) {
+			h.snk.mu.Lock()
+			h.snk.onWrite = func(p outPkt) {
+				b := p.data
+				switch {
+				case len(b) >= 28 && b[0]>>4 == 4 && b[8] == 1:
+					var dst [4]byte
+					copy(dst[:], b[12:16])
+					h.src.inject(te4([4]byte{10, 0, 0, 1}, dst, 11, 0, b[:28], nil, [4]byte{}), time.Time{})
+				case len(b) >= 48 && b[0]>>4 == 6 && b[7] == 1:
+					var dst, rt [16]byte
+					copy(dst[:], b[8:24])
+					rt[0], rt[1], rt[15] = 0x20, 0x01, 0x99
+					h.src.inject(te6(rt, dst, 3, 0, b), time.Time{})
+				}
+			}
+			h.snk.mu.Unlock()
 		}
 		defer f.install()()
 		p := traceroute.TracerouteParams{Hostname: "127.0.0.1", Port: 33434, Protocol: "udp", MinTTL: 1, MaxTTL: 3, Delay: 10, Timeout: 250 * time.Millisecond, TCPMethod: "syn"} // 250 ms: never coincides with a 100 ms poll boundary
@@ -95,6 +115,9 @@ func runLife(t *testing.T, variant string, op, k, class int) (status int, kept, 
 		for i, o := range lifeOps {
 			counts[i] = f.faults.calls(o)
 		}
+		f.faults.mu.Lock()
+		fired = f.faults.fired
+		f.faults.mu.Unlock()
 	})
 	return
 }
@@ -105,15 +128,15 @@ func labLife(e labEnv) {
 	tags := map[string]int{}
 	variants := []string{"udp", "icmp", "tcp", "udp6", "icmp6"}
 	for vi, v := range variants {
-		_, _, _, _, base, _ := runLife(e.t, v, -1, 0, 0)
+		_, _, _, _, base, _, _ := runLife(e.t, v, -1, 0, 0)
 		plan := L(sxInt(int64(base[2])), sxInt(int64(base[3])), sxInt(int64(base[4])))
 		put := func(op, k, class int) {
-			st, kept, rn, hs, _, fdLeak := runLife(e.t, v, op, k, class)
+			st, kept, rn, hs, _, fdLeak, fired := runLife(e.t, v, op, k, class)
 			if hs == nil {
 				hs = sxList{}
 			}
 			w.put(L(sxInt(15), sxInt(int64(vi)), plan, sxInt(int64(op)), sxInt(int64(k)), sxInt(int64(class))),
-				L(sxInt(int64(st)), sxBool(kept), sxBool(rn), hs, sxInt(int64(fdLeak))))
+				L(sxInt(int64(st)), sxBool(kept), sxBool(rn), hs, sxInt(int64(fdLeak)), sxInt(int64(fired))))
 			tags[fmt.Sprintf("%s:%s:class%d", v, lifeOps[op], class)]++
 		}
 		put(0, 1, 0)
